@@ -25,8 +25,10 @@ VIEW_FUNCS = {"numpy.asarray", "numpy.asanyarray", "numpy.moveaxis", "numpy.resh
               "numpy.ravel", "numpy.atleast_1d", "numpy.atleast_2d", "numpy.broadcast_to", "numpy.swapaxes",
               "numpy.frombuffer", "torch.from_numpy", "torch.as_tensor", "numpy.ascontiguousarray", "numpy.rollaxis",
               "numpy.expand_dims", "memoryview"}
+# list-only mutators (append / extend / insert / remove) are deliberately absent: they change a
+# container, never the arrays it holds
 INPLACE_METHODS = {"fill", "sort", "put", "itemset", "resize", "partition", "setfield", "__setitem__", "clear", "pop",
-                   "popitem", "update", "append", "extend", "insert", "remove", "setdefault", "__delitem__", "byteswap_"}
+                   "popitem", "update", "setdefault", "__delitem__"}
 INPLACE_FUNCS_ARG0 = {"numpy.copyto", "numpy.put", "numpy.place", "numpy.fill_diagonal", "numpy.putmask", "numpy.random.shuffle"}
 
 
@@ -201,13 +203,32 @@ class Effects:
         return out
 
     def _analyse(self, f, tracked):
+        flag = self.flag if (self.flag and self.flag in f.all_param_names()) else None
+        if flag is None:
+            return self._analyse1(f, tracked, frozenset([True, False]))
+        # one run per value of the flag keeps aliasing and flag value correlated
+        out = {"writes": [], "returns": set(), "cfg": None}
+        for v in (True, False):
+            r = self._analyse1(f, tracked, frozenset([v]))
+            out["cfg"] = r["cfg"]
+            out["returns"] |= r["returns"]
+            for w in r["writes"]:
+                for o in out["writes"]:
+                    if o.stmt is w.stmt and o.how == w.how and o.roots == w.roots:
+                        o.flags = frozenset(o.flags | w.flags)
+                        break
+                else:
+                    out["writes"].append(w)
+        return out
+
+    def _analyse1(self, f, tracked, flags0):
         cfg = CFG(f.node)
         flag = self.flag if (self.flag and self.flag in f.all_param_names()) else None
         env0 = {}
         for p in f.all_param_names():
             env0[p] = frozenset([("param", p)])
         # state: (env as frozenset of items, orig flags frozenset, cur: 'orig' | frozenset)
-        init = (frozenset(env0.items()), frozenset([True, False]), "orig")
+        init = (frozenset(env0.items()), flags0, "orig")
         writes = []
         returns = set()
         seen_w = set()
